@@ -177,7 +177,7 @@ fn main() {
             if args.len() < 2 {
                 usage();
             }
-            let mut max_cases: u64 = 300_000;
+            let mut max_cases: u64 = 2_000_000;
             let mut i = 2;
             while i < args.len() {
                 if args[i] == "--max-cases" && i + 1 < args.len() {
